@@ -27,10 +27,20 @@ import (
 	"verifsim/simrt"
 )
 
-const (
-	verifDir = "/verif"
-	goBin    = "/opt/veriftools/go1.26.8/bin/go"
-)
+const goBin = "/opt/veriftools/go1.26.8/bin/go"
+
+// verifDir is the directory this binary was built into (<verifDir>/bin/verif): /verif normally, a snapshot worktree
+// for background runs.
+var verifDir = func() string {
+	if exe, err := os.Executable(); err == nil {
+		if d := filepath.Dir(filepath.Dir(exe)); fileExists(filepath.Join(d, "harness")) {
+			return d
+		}
+	}
+	return "/verif"
+}()
+
+func fileExists(p string) bool { _, err := os.Stat(p); return err == nil }
 
 // repoDir is /repo; VERIF_REPO (development aid, never set by registered commands) points the build at
 // a private copy, e.g. to try a deliberate property-breaking edit without touching /repo.
